@@ -28,7 +28,7 @@ META = dict(
                "contrast.calculate_contrast_ratio", "contrast.calculate_relative_luminance", "color_parser.parse_color_to_rgb",
                "color_parser.detect_color_format", "color_parser.format_color", "conversions.rgbint_to_string", "conversions.rgb_to_hsl"],
     stubs=["generate_accessible_color -> its input or any valid 8-bit colour (fresh per call); over-approximates the real search",
-           "srgb_to_linear -> UF LIN with values in [0,1] (C05.1)", "optimisation.get_wcag_level (result discarded by the code) -> constant",
+           "srgb_to_linear -> UF LIN with values in [0,1] (C05.1)", "optimisation.get_wcag_level -> the real function, evaluated lazily (only if its result is used)",
            "rgb_to_hex -> opaque token denoting its argument (hex digits cannot be symbolic; lemma C06.4, bounded)",
            "mode 2: _strategy_recursive -> stub with the contract 'flag == ratio >= min' that the mode-1 jobs prove",
            "rgb_to_hsl -> opaque token denoting its argument (format->parse identity proved on the real formatter in C06.2)",
